@@ -220,6 +220,13 @@ class World:
         # b2: u3's batch in other (complete, no jobs) with an open update 1
         self._must("POST", f"{A}/batches/create", {"billing_project": "other", "token": "TO", "n_jobs": 0, "n_job_groups": 0}, "u3")
         self._must("POST", f"{A}/batches/2/updates/create", {"token": "TO2", "n_jobs": 1, "n_job_groups": 1}, "u3")
+        # both batches look like anything a search term can ask for: jobs of every outcome, a name, a cost, start and end times
+        for b in (1, 2):
+            self._sql("UPDATE job_groups_n_jobs_in_complete_states SET n_completed = 3, n_succeeded = 1, n_failed = 1, n_cancelled = 1 WHERE id = %s AND job_group_id = 0", (b,))
+            self._sql("INSERT INTO job_group_attributes (batch_id, job_group_id, `key`, `value`) VALUES (%s, 0, 'name', 'x')", (b,))
+            self._sql("INSERT INTO aggregated_job_group_resources_v3 (batch_id, job_group_id, resource_id, token, `usage`) VALUES (%s, 0, 1, 0, 1000)", (b,))
+            self._sql("UPDATE job_groups SET time_completed = 2000 WHERE batch_id = %s AND job_group_id = 0", (b,))
+            self._sql("UPDATE batches SET time_completed = 2000 WHERE id = %s", (b,))
         for bp, u in (("proj", "u1"), ("other", "u3")):
             self._sql("INSERT INTO aggregated_billing_project_user_resources_v3 (billing_project, user, resource_id, token, `usage`) "
                       "VALUES (%s, %s, 1, 0, 1000)", (bp, u))
@@ -370,6 +377,15 @@ class World:
 
 
 # ---- the concrete request for (route, request of the specification) -----------------------------------------------------
+# every search term of the two list-query languages, alone and negated / combined (used for the listing routes: whatever the
+# search says, a listing may only show what the caller may read)
+Q_V1_ALL = ["open", "closed", "complete", "running", "cancelled", "failure", "success", "has:name", "name=x", "!open", "!closed", "!complete",
+            "!running", "!cancelled", "!failure", "!success", "!has:name", "!name=x", "user:u3", "!user:u1", "billing_project:other",
+            "!billing_project:proj", "cancelled failure", "complete !success", "x", "!x"]
+Q_V2_ALL = ["state = running", "state = complete", "state = success", "state = failure", "state = cancelled", "state = open", "state = closed",
+            "state != running", "state != cancelled", "state != failure", "name = x", "name != x", "name =~ x", "name !~ x", "x", "cost >= 0", "cost < 1000000",
+            "duration >= 0", "duration < 1000000", "start_time >= 2000-01-01T00:00:00Z", "end_time <= 2100-01-01T00:00:00Z", "batch_id >= 1", "batch_id != 1",
+            "user = u3", "user != u1", "billing_project = other", "billing_project != proj", "state = cancelled\nstate != running"]
 Q_V1 = ["user:u3", "billing_project:other", "!user:u1", "open", "running", "user:u1 billing_project:proj", "has:name", ""]
 Q_V2 = ["billing_project = other", "user != u1", "state = running", "batch_id >= 1", "user = u3\nbilling_project = other", "cost >= 0", ""]
 
@@ -426,7 +442,9 @@ def concrete(method, path, cls, world, target, variant, rep="plain", seed=0):
             form = {"limit": "5", "billing_project": "newbp", "user": sub["user"], "_csrf": "x"}
     elif cls in ("list_batches", "list_billing"):
         v1 = re.search(API, path) is not None and "/api/v1alpha/" in path
-        if variant == "all":
+        if rep.startswith("term:"):
+            query["q"] = (Q_V1_ALL if v1 else Q_V2_ALL)[int(rep[5:]) % len(Q_V1_ALL if v1 else Q_V2_ALL)]
+        elif variant == "all":
             query["q"] = ""
         elif variant == "foreign":
             query["q"] = "user:u3" if v1 else "user = u3"
